@@ -244,6 +244,20 @@ def check(case, stats=None):
                 p = bnp.sequence.translate_dna_to_protein(e)
                 if p.sequence.tolist() != want or p.name.tolist() != e.name.tolist():
                     return [Failure("C14:translation-entry", {"rows": rows, "expected": want, "actual": p.sequence.tolist()})]
+                # the same table handed to several calls: each result is what the definition gives for the table's own sequences,
+                # and results obtained earlier stay what they were
+                e2 = bnp.SequenceEntry(["n%d" % i for i in range(len(rows))], list(rows))
+                rc1 = bnp.sequence.get_reverse_complement(e2)
+                p2 = bnp.sequence.translate_dna_to_protein(e2)
+                rc2 = bnp.sequence.get_reverse_complement(rc1)
+                want_rc_rows = [revcomp(r_).upper() for r_ in rows]
+                seen = {"forward translation after a reverse complement was taken": (p2.sequence.tolist(), want),
+                        "reverse complement, read after the later calls": ([x.upper() for x in rc1.sequence.tolist()], want_rc_rows),
+                        "reverse complement applied twice": ([x.upper() for x in rc2.sequence.tolist()], [r_.upper() for r_ in rows]),
+                        "the table that was handed in": ([x.upper() for x in e2.sequence.tolist()], [r_.upper() for r_ in rows])}
+                for what, (g_, w_) in seen.items():
+                    if g_ != w_:
+                        return [Failure("C14:table-handed-to-several-calls", {"what": what, "rows": rows, "expected": w_, "actual": g_})]
     except Exception as e:  # noqa
         return [Failure(f"C14:raised:{k}:{type(e).__name__}:{_where(e)}", {"error": repr(e)[:300], "case": case})]
     return []
